@@ -183,6 +183,25 @@ class Engine:
         name, i = ent
         return Q(S.Lin.var(name, z3.ToReal(i)))
 
+    def round_of(self, q, ndigits):
+        """nearest multiple of 10^-ndigits of the finite linear value q (fresh Int unknown k, |q * 10^n - k| <= 1/2)"""
+        t = S.zr(q.n)
+        key = "round%d|%s" % (ndigits, t.sexpr())
+        ent = self._floors.get(key)
+        if ent is None:
+            name = "rd!%d" % len(self._floors)
+            i = z3.Int(name)
+            self.vars[name] = i
+            self.kinds[name] = "int"
+            ent = self._floors[key] = (name, i)
+            scale = z3.RealVal(10 ** ndigits) if ndigits >= 0 else z3.RealVal("1/%d" % (10 ** -ndigits))
+            r = z3.ToReal(i)
+            self.assumptions.append(z3.And(2 * scale * t - 1 <= 2 * r, 2 * r <= 2 * scale * t + 1))
+            self.assumption_notes.append("round(x, %d): nearest multiple of 10^-%d" % (ndigits, ndigits))
+        name, i = ent
+        from fractions import Fraction
+        return Q(S.Lin.var(name, z3.ToReal(i))) * Q.lift(Fraction(1, 10 ** ndigits) if ndigits >= 0 else Fraction(10 ** -ndigits))
+
     def int_names(self):
         return {nm for nm, k in self.kinds.items() if k == "int"}
 
@@ -328,6 +347,7 @@ class Engine:
         S.HOOKS.pick_int = self.pick_int
         S.HOOKS.floor = self.floor_of
         S.HOOKS.int_kinds = self.int_names
+        S.HOOKS.round_to = self.round_of
         stack = [[]]
         n = 0
         while stack:
@@ -353,6 +373,7 @@ class Engine:
         S.HOOKS.pick_int = self.pick_int
         S.HOOKS.floor = self.floor_of
         S.HOOKS.int_kinds = self.int_names
+        S.HOOKS.round_to = self.round_of
         self.guide = model
         self._prefix = []
         self._alternatives = []
